@@ -90,7 +90,7 @@ Definition found_touches (ins : list (N * input)) (a : addr) (k : service) : lis
 (* ---- server subscriptions: touches of key (instance, subscriber address, subscription identity) ---- *)
 Definition sub_key_eqb := sub_eqb.
 
-Fixpoint subs_touches_go (insts : list (N * inst)) (ins : list (N * input)) (ls : lstate)
+Fixpoint subs_touches_go (insts : list (N * inst)) (ins : list (N * input)) (ls : lstate) (rej : list N)
   (i : N) (a : addr) (k : subscription) : list (N * touch) :=
   match ins with
   | [] => []
@@ -107,7 +107,7 @@ Fixpoint subs_touches_go (insts : list (N * inst)) (ins : list (N * input)) (ls 
                    && match matches_subscribe (in_service ins_i) e with Ok true => true | _ => false end
                    && sub_key_eqb (from_subscribe_entry e) k
                 then if e_ttl e =? 0 then [(t, TDown)]
-                     else [(t, TUp (e_ttl e) true (negb (memN (sb_id k) (in_reject ins_i))))]
+                     else [(t, TUp (e_ttl e) true (negb (memN (sb_id k) rej)))]
                 else []
             | None => []
             end
@@ -115,9 +115,11 @@ Fixpoint subs_touches_go (insts : list (N * inst)) (ins : list (N * input)) (ls 
         | IApi _ => if was_running && negb (memN i (l_running ls')) then [(t, TDown)] else []
         | _ => []
         end in
-      here ++ subs_touches_go insts r ls' i a k
+      let rej' := match x with IApi (ApiSetReject j egs) => if j =? i then egs else rej | _ => rej end in
+      here ++ subs_touches_go insts r ls' rej' i a k
   end.
-Definition subs_touches insts ins i a k := subs_touches_go insts ins l_init i a k.
+Definition subs_touches insts ins i a k :=
+  subs_touches_go insts ins l_init (match aget N.eqb i insts with Some x => in_reject x | None => [] end) i a k.
 
 (* ---- what the trace shows for one key ---- *)
 Definition found_actual (tr : trace) (lid : N) (a : addr) (k : service) : list (N * bool) :=
